@@ -1,4 +1,163 @@
-import Nstd.Rc.Model
+import Nstd.Rc.Lemmas
+/-
+  Property C09: shared payloads are released exactly once, after their last handle.
+
+  `Reach n s`: s is reachable from the initial state with n handle slots by SOME interleaving
+  of atomic steps of ANY number of threads running ANY programs (a step is possible only on
+  slots the thread owns; see `astep`).  Ghost fields: `freed b` = how often block b was
+  released, `viol` = number of steps so far that accessed a released block, released a block
+  twice or wrote a block in place while another handle existed.
+-/
 namespace Nstd.Rc
-theorem placeholder : (init 3).next = 0 := rfl
+
+/-- multi-threaded safety: in every reachable state, for every schedule and all programs -/
+theorem mt_safe {n : Nat} {s : St} (h : Reach n s) :
+    -- the counter equals the number of handles (slots of all threads, including the scratch slots
+    -- that hold increments "in flight" and temporaries)
+    (∀ b blk, s.heap b = some blk → blk.ref = handles s b)
+    -- no step so far touched a released block, released twice, or wrote a shared block in place
+    ∧ s.viol = 0
+    -- each block is released at most once; released <-> gone
+    ∧ (∀ b, s.freed b ≤ 1)
+    ∧ (∀ b, b < s.next → (s.freed b = 1 ↔ s.heap b = none))
+    -- never released while a handle refers to it
+    ∧ (∀ v b, v < s.n → s.slots v = .blk b → s.heap b ≠ none ∧ s.freed b = 0)
+    -- a live block without handles is being released by the one thread whose decrement reached zero
+    ∧ (∀ b blk, s.heap b = some blk → handles s b = 0 →
+         ∃ tid, s.pc tid = .freeing b ∧ ∀ tid', s.pc tid' = .freeing b → tid' = tid)
+    -- a thread that is about to write in place holds the only handle
+    ∧ (∀ tid t b, s.pc tid = .writing t b → handles s b = 1 ∧ s.slots t = .blk b ∧ s.owner t = tid) := by
+  have inv := inv_reach h
+  refine ⟨inv.cnt, inv.noviol, inv.freed_le_one, ?_, ?_, ?_, ?_⟩
+  · intro b hb
+    have := inv.freedOnce b hb
+    by_cases y : s.heap b = none <;> simp only [y, if_true, if_false] at this <;> simp [y, this]
+  · intro v b hv hs
+    obtain ⟨blk, hblk⟩ := inv.live v b hv hs
+    refine ⟨by rw [hblk]; simp, ?_⟩
+    by_cases x : b < s.next
+    · have := inv.freedOnce b x
+      simpa [hblk] using this
+    · exact (inv.fresh b (by omega)).2
+  · intro b blk hb hz
+    have hr : blk.ref = 0 := by rw [inv.cnt b blk hb]; exact hz
+    obtain ⟨tid, hf⟩ := inv.zero b blk hb hr
+    exact ⟨tid, hf, (inv.freeing tid b hf).2⟩
+  · intro tid t b hw
+    obtain ⟨_, a2, a3, blk, a4, a5⟩ := inv.writing tid t b hw
+    refine ⟨?_, a3, a2⟩
+    rw [← inv.cnt b blk a4]; exact a5
+
+/-- the NEXT step of any thread from any reachable state is safe as well: it does not touch a
+    released block, release twice, or write in place a block that has another handle -/
+theorem mt_step_safe {n : Nat} {s s' : St} {tid : Nat} {a : Act} (h : Reach n s)
+    (hs : astep s tid a = some s') : s'.viol = 0 :=
+  (inv_reach (Reach.step h hs)).noviol
+
+/-- the in-place write step itself: the block it modifies is live and has exactly one handle,
+    which is a slot of the writing thread -/
+theorem mt_write_sole {n : Nat} {s s' : St} {tid t b : Nat} {val : List Nat} (h : Reach n s)
+    (_hs : astep s tid (.write val) = some s') (hw : s.pc tid = .writing t b) :
+    handles s b = 1 ∧ s.slots t = .blk b ∧ s.owner t = tid ∧ t < s.n ∧ ∃ blk, s.heap b = some blk := by
+  have inv := inv_reach h
+  obtain ⟨a1, a2, a3, blk, a4, a5⟩ := inv.writing tid t b hw
+  exact ⟨by rw [← inv.cnt b blk a4]; exact a5, a3, a2, a1, blk, a4⟩
+
+/-- the same for explicit schedules: a schedule is a list of (thread, step) -/
+theorem mt_sched_safe {n : Nat} (sched : List (Nat × Act)) {s : St} (h : runSched (init n) sched = some s) :
+    s.viol = 0 ∧ (∀ b, s.freed b ≤ 1) ∧ (∀ b blk, s.heap b = some blk → blk.ref = handles s b) := by
+  have inv := inv_reach (reach_runSched sched Reach.init h)
+  exact ⟨inv.noviol, inv.freed_le_one, inv.cnt⟩
+
+
+/-! ### single-threaded: every history of API calls of the four handle classes
+    (`apiRun (init n) tid ops = some s`: the calls `ops` were executed one after the other by one
+    thread; `none` only if a call addresses a slot outside `0..n-1`/not owned by the thread) -/
+
+/-- the state between two API calls: nothing is in flight -/
+theorem st_quiet {n tid : Nat} {ops : List ApiOp} {s : St} (h : apiRun (init n) tid ops = some s) :
+    ∀ t, s.pc t = .idle :=
+  quiet_apiRun ops (fun _ => rfl) h
+
+/-- after every history: the counter of every live block is the number of handles referring to it
+    (and is positive: no live block without a handle, i.e. no leak) -/
+theorem ref_counts_handles {n tid : Nat} {ops : List ApiOp} {s : St} (h : apiRun (init n) tid ops = some s) :
+    ∀ b blk, s.heap b = some blk → blk.ref = handles s b ∧ 0 < blk.ref := by
+  have inv := inv_reach (reach_apiRun ops Reach.init h)
+  intro b blk hb
+  refine ⟨inv.cnt b blk hb, ?_⟩
+  by_cases z : blk.ref = 0
+  · obtain ⟨t, hf⟩ := inv.zero b blk hb z
+    rw [st_quiet h t] at hf; cases hf
+  · omega
+
+/-- after every history, every block ever allocated is either live, never released and referred to
+    by at least one handle, or released exactly once and referred to by no handle:
+    released exactly when the last handle went, never twice, never while referenced -/
+theorem freed_once_after_last {n tid : Nat} {ops : List ApiOp} {s : St} (h : apiRun (init n) tid ops = some s) :
+    ∀ b, b < s.next →
+      (s.freed b = 0 ∧ s.heap b ≠ none ∧ 1 ≤ handles s b) ∨ (s.freed b = 1 ∧ s.heap b = none ∧ handles s b = 0) := by
+  have inv := inv_reach (reach_apiRun ops Reach.init h)
+  intro b hb
+  have hf := inv.freedOnce b hb
+  cases hh : s.heap b with
+  | none =>
+    right
+    simp only [hh, if_true] at hf
+    refine ⟨hf, rfl, ?_⟩
+    apply handles_zero
+    intro v hv e
+    obtain ⟨blk, hblk⟩ := inv.live v b hv e
+    rw [hh] at hblk; cases hblk
+  | some blk =>
+    left
+    simp only [hh, reduceCtorEq, if_false] at hf
+    obtain ⟨h1, h2⟩ := ref_counts_handles h b blk hh
+    exact ⟨hf, by simp, by omega⟩
+
+/-- after every history no in-place write has hit a block that another handle referred to, no
+    released block was accessed and nothing was released twice (ghost counter of such events) -/
+theorem no_inplace_write_while_shared {n tid : Nat} {ops : List ApiOp} {s : St}
+    (h : apiRun (init n) tid ops = some s) : s.viol = 0 :=
+  (inv_reach (reach_apiRun ops Reach.init h)).noviol
+
+/-- … and the write steps inside the calls: whenever a call of a history is at its in-place write,
+    the written block has exactly one handle (stated for all reachable states in `mt_write_sole`;
+    here for the states inside single-threaded histories) -/
+theorem st_write_sole {n tid : Nat} {ops : List ApiOp} {s s1 s2 : St} {acts : List Act} {t b : Nat} {val : List Nat}
+    (h : apiRun (init n) tid ops = some s) (h1 : runT s tid acts = some s1)
+    (hw : s1.pc tid = .writing t b) (h2 : astep s1 tid (.write val) = some s2) :
+    handles s1 b = 1 ∧ s1.slots t = .blk b := by
+  have r := reach_runT acts (reach_apiRun ops Reach.init h) h1
+  obtain ⟨a, b', _⟩ := mt_write_sole r h2 hw
+  exact ⟨a, b'⟩
+
+/-! ### non-vacuity: concrete histories / schedules that exercise sharing, cloning, release -/
+
+/-- copy, write to the copy (clones), drop the source (releases block 0 exactly once) -/
+example : ∃ s, apiRun (init nSlots) 0 [.sNew 0 [97], .sCopy 1 0, .sAppend 1 [98], .sDel 0] = some s
+    ∧ s.next = 2 ∧ s.freed 0 = 1 ∧ s.freed 1 = 0 ∧ (s.heap 1).map (·.val) = some [97, 98] := by
+  refine ⟨_, rfl, ?_⟩
+  decide
+
+/-- a sole owner appends in place (no new block) -/
+example : ∃ s, apiRun (init nSlots) 0 [.sNew 0 [97], .sAppend 0 [98]] = some s
+    ∧ s.next = 1 ∧ (s.heap 0).map (·.val) = some [97, 98] := by
+  refine ⟨_, rfl, ?_⟩
+  decide
+
+/-- two threads: thread 1 reads the counter of a shared block (2: clone), thread 2 drops its
+    handle in between, thread 1 then releases the last reference and frees the block -/
+example : ∃ s, runSched (init nSlots)
+    [(0, .alloc 0 0 [97] 3), (0, .inc 1 0), (0, .give 0 1), (0, .give 1 2), (0, .give 17 1),
+     (1, .readRef 0 true), (2, .dec 1), (1, .alloc 17 0 [97, 98] 3), (1, .dec 0), (1, .free), (1, .move 0 17)] = some s
+    ∧ s.freed 0 = 1 ∧ s.heap 0 = none ∧ s.slots 0 = .blk 1 ∧ s.viol = 0 := by
+  refine ⟨_, rfl, ?_⟩
+  decide
+
+/-- a reachable state in which a block is shared by handles of two different threads -/
+example : ∃ s, Reach nSlots s ∧ (∃ blk, s.heap 0 = some blk ∧ blk.ref = 2) ∧ s.owner 0 ≠ s.owner 1 := by
+  refine ⟨_, reach_runSched [(0, .alloc 0 0 [97] 3), (0, .inc 1 0), (0, .give 1 2)] Reach.init rfl, ?_⟩
+  decide
+
 end Nstd.Rc
